@@ -14,7 +14,7 @@ import (
 )
 
 var c10Families = []string{"valid", "mutated", "bytes", "natural-join", "union-chain", "cte-cycle", "brackets", "quotes", "from-path", "parallel-fail", "bg-fail", "await", "distinct-subq-star",
-	"object-compare", "group-object", "limit-weird", "deep-nesting", "doc-shape", "native-types", "nil-doc", "vars-nil", "selector-in-sql", "parallel-fresh"}
+	"object-compare", "group-object", "limit-weird", "deep-nesting", "doc-shape", "native-types", "nil-doc", "vars-nil", "selector-in-sql", "parallel-fresh", "reexec", "parallel-vars", "many-inner"}
 
 func init() {
 	floor := []string{}
@@ -132,6 +132,7 @@ type c10Case struct {
 	mode   int32
 	feats  []string
 	bg     bool
+	execs  int // > 1: New once, Exec this many times on the same Query
 }
 
 func c10Build(c *fw.Case) c10Case {
@@ -330,6 +331,45 @@ func c10Build(c *fw.Case) c10Case {
 		j := gen.Pick(c.R, []string{"PARALLEL JOIN", "PARALLEL LEFT JOIN", "PARALLEL RIGHT JOIN", "PARALLEL STRAIGHT_JOIN"})
 		cs.sql = fmt.Sprintf("SELECT * FROM l%s x %s r%s y ON x.k%s %s y.m%s OR x.v%s = y.w%s", sfx, j, sfx, sfx, gen.Pick(c.R, []string{"<", ">=", "!="}), sfx, sfx, sfx)
 		cs.opts = OptSet{}
+	case "reexec":
+		// the same Query object executed several times, the first execution
+		// possibly failing part-way (planned fault, or SETVAR without a variable map)
+		cs.sql = form()
+		if c.Chance(0.4) {
+			cs.sql = gen.Pick(c.R, []string{"SELECT SETVAR('k', n1), GETVAR('k') AS g FROM t1", "SELECT SETVAR('k', n1) FROM t1", "SELECT rid, GETVAR('k') AS g FROM t1 WHERE SETVAR('k', 1) IS NULL",
+				"SELECT rid, (SELECT SETVAR('k', e) FROM arr) AS s FROM t1", "SELECT ONCE.VFAIL(n1) AS o, SETVAR('k', 1) FROM t1"})
+		}
+		cs.execs = 2 + c.Intn(2)
+		if c.Chance(0.3) {
+			cs.extra = append(cs.extra, genql.WithVars(map[string]any{}))
+		}
+		if c.Chance(0.6) {
+			cs.faultK, cs.mode = 1+c.Intn(4), int32(1+c.Intn(4))
+		}
+	case "parallel-vars":
+		// rows evaluated concurrently that all reach the query's variable store
+		j := gen.Pick(c.R, []string{"PARALLEL JOIN", "PARALLEL LEFT JOIN", "PARALLEL RIGHT JOIN"})
+		on := gen.Pick(c.R, []string{"x.n1 = y.un1 AND SETVAR('k', 1)", "x.n1 = y.un1 OR SETVAR('k', x.n1)", "GETVAR('k') = y.un1", "SETVAR('k', x.rid)", "x.n1 >= y.un1 AND GETVAR('k') IS NULL AND SETVAR('j', 2)"})
+		cs.sql = "SELECT * FROM t1 x " + j + " u1 y ON " + on
+		if c.Chance(0.3) {
+			cs.extra = append(cs.extra, genql.WithVars(map[string]any{"k": 1.0}))
+		}
+		cs.execs = 1 + c.Intn(2)
+	case "many-inner":
+		// a multi-dimensional FROM with dozens of inner arrays: work and memory
+		// stay proportional to the input
+		n := 24 + c.Intn(40)
+		mm := make([]any, n)
+		for i := range mm {
+			inner := make([]any, 1+c.Intn(2))
+			for k := range inner {
+				inner[k] = map[string]any{"a": float64(i), "b": "x", "s1": "v"}
+			}
+			mm[i] = inner
+		}
+		cs.doc = map[string]any{"mm": mm}
+		cs.sql = gen.Pick(c.R, []string{"SELECT * FROM mm", "SELECT a, ASYNC.VBG(s1) AS w FROM mm", "SELECT a, AWAIT(ASYNC.VBG(s1)) AS w FROM mm", "SELECT *, (a + 1) AS c FROM mm WHERE a >= 3", "SELECT a, (SELECT b FROM dual) AS q FROM mm"})
+		cs.opts = OptSet{Idiomatic: c.Chance(0.3)}
 	case "selector-in-sql":
 		cs.sql = "SELECT `" + gen.Pick(c.R, []string{"arr[9].e", "arr[each].e.x", "obj{k|date}", "obj.k.z", "arr[(2:1)]", "s1[0]", "nosuch=>arr", "arr::[5]", "'", "arr[", "obj{", "<-<-<-<-x"}) + "` AS v FROM t1"
 	}
@@ -349,7 +389,20 @@ func c10Run(c *fw.Case) {
 	}
 	opts := append(cs.opts.Options(), cs.extra...)
 	c.Sample(map[string]any{"sql": short(sql, 300), "options": cs.opts.Names(), "fault_at": cs.faultK, "fault_mode": faultModeNames[cs.mode]})
-	o := Run(cs.doc, sql, opts...)
+	var o Outcome
+	if cs.execs > 1 {
+		q, no := newSafe(cs.doc, sql, opts...)
+		o = no
+		for i := 0; q != nil && i < cs.execs && o.Panic == nil; i++ {
+			o = execBuilt(q)
+			if i == 0 {
+				armFault(0, faultNone) // later executions run without the planned fault
+			}
+		}
+		c.Feature(fmt.Sprintf("execs.%d", cs.execs))
+	} else {
+		o = Run(cs.doc, sql, opts...)
+	}
 	quiet := waitBackground()
 	armFault(0, faultNone)
 	c.Feature(cs.feats...)
